@@ -9,6 +9,7 @@ mod c02;
 mod c03;
 mod c04;
 mod c05;
+mod c06;
 mod c07;
 mod c08;
 mod c09;
@@ -228,6 +229,7 @@ fn main() {
         "C03" => c03::run(thorough),
         "C04" => c04::run(thorough),
         "C05" => c05::run(thorough),
+        "C06" => c06::run(thorough),
         "C07" => c07::run(thorough),
         "C08" => c08::run(thorough),
         "C09" => c09::run(thorough),
